@@ -13,6 +13,14 @@
   structural comparison `cmp`, `isEqual`, `clone`, `copyFrom` are the transcription of the stefc
   templates in Stef/Cmp.lean. Where the code violates the property the full statement is refuted
   from a witness (`..._false`) and a `..._partial` version carries the excluding hypothesis.
+
+  History: until /repo commit 05846e0 pkg.Float64Compare used Go's `<`/`>` (NaN compared 0 with
+  everything, -0 = +0) and this file refuted the order laws for floats. The fix compares the
+  IEEE-754 totalOrder key of the bit patterns; the laws below are now proved for ALL bit patterns
+  and the structural theorems carry no float hypothesis any more. Commit 59db810 replaced the
+  `!=` guards of the generated setters and copy loops by pkg.<T>Equal, so the copy theorems hold
+  for all float bit patterns too. What remains refuted is template-level: Clone drops optional
+  presence, Cmp reads stored values of absent optionals (and a `!=` left in copy<Multimap>).
 -/
 import Stef.Proofs.Cmp
 import Stef.Proofs.CmpCopy
@@ -47,7 +55,7 @@ theorem strCompare_total_order : TotalOrderCmp (fun _ : Bytes => True) strCompar
 
 example : strCompare [0x61#8] [0x61#8, 0x00#8] = -1 ∧ strCompare [0xff#8] [0x61#8, 0x62#8] = 1 := by decide
 
-/-! ### Float64Compare: NOT a total order (genuine defects float64compare-nan / -negzero) -/
+/-! ### Float64Compare / Float64Equal on bit patterns (all of them: NaNs, -0, +0, infinities) -/
 
 /-- a quiet NaN, +0, -0, 1.0, 2.0 as bit patterns -/
 def nan : BitVec 64 := 0x7ff8000000000000#64
@@ -56,72 +64,37 @@ def negZero : BitVec 64 := 0x8000000000000000#64
 def one : BitVec 64 := 0x3ff0000000000000#64
 def two : BitVec 64 := 0x4000000000000000#64
 
-/-- The defect in general form: a NaN compares as "equal" (0) to EVERY value, in both positions. -/
-theorem float64Compare_nan_zero (n x : BitVec 64) (hn : Flt.isNaN n = true) :
-    Gen.float64Compare n x = 0 ∧ Gen.float64Compare x n = 0 := by
-  unfold Gen.float64Compare Flt.gt Flt.lt
-  simp [hn]
-
-example : Flt.isNaN nan = true ∧ Gen.float64Compare nan one = 0 := by decide
-
-/-- transitivity fails: 2.0 ≤ NaN ≤ 1.0 by Float64Compare, but 2.0 > 1.0. -/
-theorem float64Compare_trans_false :
-    ¬ ∀ a b c : BitVec 64, Gen.float64Compare a b ≤ 0 → Gen.float64Compare b c ≤ 0 →
-        Gen.float64Compare a c ≤ 0 := by
-  intro h
-  have := h two nan one (by decide) (by decide)
-  revert this; decide
-
-/-- "0 only for identical values" fails: -0.0 vs +0.0, and NaN vs 1.0. -/
-theorem float64Compare_eq_zero_false :
-    ¬ ∀ a b : BitVec 64, Gen.float64Compare a b = 0 → a = b := by
-  intro h
-  have := h negZero posZero (by decide)
-  revert this; decide
-
-/-- so Float64Compare is not a total order on float64 bit patterns -/
-theorem float64Compare_total_order_false :
-    ¬ TotalOrderCmp (fun _ : BitVec 64 => True) Gen.float64Compare := by
-  intro h
-  exact float64Compare_trans_false (fun a b c => h.trans a b c trivial trivial trivial)
-
-/-- Float64Compare restricted to patterns that are neither NaN nor the negative zero IS a total
-    order (all four laws, `= 0 ↔` bit-identical). -/
-theorem float64Compare_total_order_partial :
-    TotalOrderCmp (fun w : BitVec 64 => Flt.isNaN w = false ∧ Flt.isNegZero w = false)
-      Gen.float64Compare :=
+/-- pkg.Float64Compare is a total order on ALL float64 bit patterns: reflexive-zero, antisymmetric,
+    transitive, and 0 only for bit-identical values. (`float64OrderKey` is injective and
+    Float64Compare is the unsigned comparison of the keys.) -/
+theorem float64Compare_total_order : TotalOrderCmp (fun _ : BitVec 64 => True) Gen.float64Compare :=
   f64Exact.toTotal
 
-/-- non-vacuity: infinities, subnormals and ordinary values satisfy the hypothesis -/
-example : (Flt.isNaN 0xfff0000000000000#64 = false ∧ Flt.isNegZero 0xfff0000000000000#64 = false) ∧
-    (Flt.isNaN 0x0000000000000001#64 = false ∧ Flt.isNegZero 0x0000000000000001#64 = false) ∧
+/-- the former counterexamples are now ordered: -0 < +0, 1.0 < 2.0 < NaN, two NaN payloads differ -/
+example : Gen.float64Compare negZero posZero = -1 ∧ Gen.float64Compare two nan = -1 ∧
+    Gen.float64Compare nan one = 1 ∧ Gen.float64Compare two one = 1 ∧
+    Gen.float64Compare nan 0x7ff8000000000001#64 = -1 ∧ Gen.float64Compare nan nan = 0 := by decide
+
+/-- pkg.Float64Equal is true exactly for identical bit patterns (NaN equals itself, -0 ≠ +0). -/
+theorem float64Equal_exact (a b : BitVec 64) : Gen.float64Equal a b = true ↔ a = b := by
+  unfold Gen.float64Equal; exact beq_iff_eq
+
+example : Gen.float64Equal nan nan = true ∧ Gen.float64Equal negZero posZero = false := by decide
+
+/-- "Ordinary numbers compare as with < and >": when neither value is a NaN and they are not both
+    zeros, Float64Compare is Go's IEEE-754 comparison (`if l > r {1} else if l < r {-1} else 0`). -/
+theorem float64Compare_ieee_on_numbers (a b : BitVec 64)
+    (ha : Flt.isNaN a = false) (hb : Flt.isNaN b = false)
+    (hz : ¬ (Flt.isZero a = true ∧ Flt.isZero b = true)) :
+    Gen.float64Compare a b = (if Flt.gt a b then 1 else if Flt.lt a b then -1 else 0) := by
+  rw [float64Compare_key, f64Key_ieee a b hz]
+  unfold sgnCmp Flt.gt Flt.lt
+  simp only [ha, hb, Bool.not_false, Bool.true_and, decide_eq_true_eq]
+
+/-- non-vacuity: -inf, a subnormal and -0 against 1.0 -/
+example : Flt.isNaN 0xfff0000000000000#64 = false ∧ Flt.isNaN 0x0000000000000001#64 = false ∧
+    ¬ (Flt.isZero negZero = true ∧ Flt.isZero one = true) ∧
     Gen.float64Compare 0xfff0000000000000#64 0x0000000000000001#64 = -1 := by decide
-
-/-- Without NaN alone (negative zero allowed) Float64Compare is still reflexive, antisymmetric and
-    transitive; only exactness is lost (-0 = +0). -/
-theorem float64Compare_preorder_partial (a b c : BitVec 64)
-    (ha : Flt.isNaN a = false) (hb : Flt.isNaN b = false) (hc : Flt.isNaN c = false) :
-    Gen.float64Compare a a = 0 ∧ Gen.float64Compare a b = -(Gen.float64Compare b a) ∧
-    (Gen.float64Compare a b ≤ 0 → Gen.float64Compare b c ≤ 0 → Gen.float64Compare a c ≤ 0) :=
-  ⟨f64Order.refl a ha, f64Order.antisymm a b ha hb, (f64Order.tri a b c ha hb hc).le⟩
-
-example : Flt.isNaN negZero = false ∧ Gen.float64Compare negZero one = -1 := by decide
-
-/-- pkg.Float64Equal: false for a NaN against itself, true for -0 against +0 ... -/
-theorem float64Equal_exact_false :
-    ¬ ∀ a b : BitVec 64, (Gen.float64Equal a b = true ↔ a = b) := by
-  intro h
-  have := (h nan nan).mpr rfl
-  revert this; decide
-
-/-- ... and exact on patterns that are neither NaN nor negative zero. -/
-theorem float64Equal_exact_partial (a b : BitVec 64)
-    (ha : Flt.isNaN a = false ∧ Flt.isNegZero a = false)
-    (hb : Flt.isNaN b = false ∧ Flt.isNegZero b = false) :
-    Gen.float64Equal a b = true ↔ a = b := by
-  unfold Gen.float64Equal; exact Flt.eq_iff ha hb
-
-example : (Flt.isNaN one = false ∧ Flt.isNegZero one = false) ∧ Gen.float64Equal one one = true := by decide
 
 /-! ## 2. the generated structural comparison, generically over the leaf laws -/
 
@@ -143,7 +116,7 @@ theorem cmp_total_order {α : Type} (P : α → Prop) (o : LeafOps α) (h : Tota
 /-- non-vacuity: the hypothesis is met by uint64 leaves under pkg.Uint64Compare, and the conclusion
     then covers e.g. a struct holding an optional field, a oneof and an array -/
 example : TotalOrderCmp (Value.All (fun _ : BitVec 64 => True))
-    (cmp { cmp := Gen.uint64Compare, eq := Gen.uint64Equal, zero := fun _ => 0 }) :=
+    (cmp { cmp := Gen.uint64Compare, eq := Gen.uint64Equal, same := Gen.uint64Equal, zero := fun _ => 0 }) :=
   cmp_total_order _ _ uint64Compare_total_order
 example : (Value.struct (.cons .req (.leaf 5#64) (.cons .present (.choice 2#8 (.leaf 7#64))
     (.cons .req (.arr (.cons (.leaf 1#64) .nil)) .nil)))).All (fun _ : BitVec 64 => True) :=
@@ -156,15 +129,25 @@ theorem cmp_preorder {α : Type} (P : α → Prop) (o : LeafOps α) (h : LeafOrd
     cmp o a a = 0 ∧ cmp o a b = -(cmp o b a) ∧ (cmp o a b ≤ 0 → cmp o b c ≤ 0 → cmp o a c ≤ 0) :=
   ⟨cmp_refl h a ha, cmp_antisymm h a b ha hb, (cmp_tri h a b c ha hb hc).le⟩
 
-example : LeafOrder PrimVal.notNaN primOps.cmp := primOrder
+example : LeafOrder (fun _ : PrimVal => True) primOps.cmp := primExact.toLeafOrder
 
 /-! ## 3. instantiated with the generated primitives (`primOps`: pkg.*Compare / pkg.*Equal) -/
 
-/-- For record trees over the real primitive comparators: a total order - all four laws - on all
-    trees whose float leaves are neither NaN nor negative zero (every non-float leaf is allowed). -/
-theorem cmp_prim_total_order_partial :
-    TotalOrderCmp (Value.All PrimVal.plainFloat) (cmp primOps) :=
-  cmp_total_order PrimVal.plainFloat primOps primExact.toTotal
+/-- The leaf comparison of the generated code (pkg.Uint64/Int64/Bool/Float64/String/BytesCompare)
+    is a total order on all primitive values. -/
+theorem primCompare_total_order : TotalOrderCmp (fun _ : PrimVal => True) primCompare :=
+  primExact.toTotal
+
+/-- THE PROPERTY for the comparison: over the real primitive comparators the generated structural
+    Cmp is a total order on ALL record trees - every float bit pattern, every shape, optional
+    presence, nil dictionary pointers - and returns 0 only for identical trees. No hypothesis. -/
+theorem cmp_prim_total_order : TotalOrderCmp (fun _ : Value PrimVal => True) (cmp primOps) := by
+  have h := cmp_total_order (fun _ : PrimVal => True) primOps primCompare_total_order
+  exact {
+    refl := fun a _ => h.refl a (all_true a)
+    antisymm := fun a b _ _ => h.antisymm a b (all_true a) (all_true b)
+    trans := fun a b d _ _ _ => h.trans a b d (all_true a) (all_true b) (all_true d)
+    eq_zero_iff := fun a b _ _ => h.eq_zero_iff a b (all_true a) (all_true b) }
 
 /-- a Point-like record: uint64 timestamps, a oneof holding a histogram struct with an optional
     float sum that is present, an absent optional with a stored value, and bucket counts -/
@@ -174,58 +157,30 @@ def samplePoint (sum : BitVec 64) : Value PrimVal :=
       (.cons .absent (.leaf (.f64 one)) (.cons .req (.arr (.cons (.leaf (.u64 1)) (.cons (.leaf (.u64 2)) .nil))) .nil))))))
     (.cons .req (.mmap (.cons (.leaf (.str [0x6b#8])) (.choice 0#8 (.leaf (.str [0x76#8]))) .nil)) .nil))))
 
-example : (samplePoint two).All PrimVal.plainFloat := by
-  simp [samplePoint, Value.All, Fields.All, Values.All, Pairs.All, PrimVal.plainFloat]; with_unfolding_all decide
-
-example : cmp primOps (samplePoint one) (samplePoint two) = -1 := by with_unfolding_all decide
-
-/-- Transitivity (with reflexivity and antisymmetry) already holds when no float leaf is a NaN. -/
-theorem cmp_prim_preorder_partial (a b c : Value PrimVal)
-    (ha : a.All PrimVal.notNaN) (hb : b.All PrimVal.notNaN) (hc : c.All PrimVal.notNaN) :
-    cmp primOps a a = 0 ∧ cmp primOps a b = -(cmp primOps b a) ∧
-    (cmp primOps a b ≤ 0 → cmp primOps b c ≤ 0 → cmp primOps a c ≤ 0) :=
-  cmp_preorder PrimVal.notNaN primOps primOrder a b c ha hb hc
-
-example : (samplePoint negZero).All PrimVal.notNaN := by
-  simp [samplePoint, Value.All, Fields.All, Values.All, Pairs.All, PrimVal.notNaN]; with_unfolding_all decide
-
-/-- The full claim is FALSE for the generated code: with a NaN in a float field the structural
-    comparison is not transitive (witness: records differing only in a float field 2.0 / NaN / 1.0). -/
-theorem cmp_prim_trans_false :
-    ¬ ∀ a b c : Value PrimVal, cmp primOps a b ≤ 0 → cmp primOps b c ≤ 0 → cmp primOps a c ≤ 0 := by
-  intro h
-  have := h (samplePoint two) (samplePoint nan) (samplePoint one) (by with_unfolding_all decide) (by with_unfolding_all decide)
-  revert this; with_unfolding_all decide
-
-/-- ... and it returns 0 for records holding different data (-0.0 vs +0.0, NaN vs 1.0). -/
-theorem cmp_prim_eq_zero_false :
-    ¬ ∀ a b : Value PrimVal, cmp primOps a b = 0 → a = b := by
-  intro h
-  have e := h (samplePoint negZero) (samplePoint posZero) (by with_unfolding_all decide)
-  simp [samplePoint, negZero, posZero] at e
-
-theorem cmp_prim_total_order_false : ¬ TotalOrderCmp (fun _ : Value PrimVal => True) (cmp primOps) := by
-  intro h
-  exact cmp_prim_trans_false (fun a b c => h.trans a b c trivial trivial trivial)
+/-- the triples and pairs that used to refute the property are now ordered consistently -/
+example : cmp primOps (samplePoint one) (samplePoint two) = -1 ∧
+    cmp primOps (samplePoint two) (samplePoint nan) = -1 ∧
+    cmp primOps (samplePoint one) (samplePoint nan) = -1 ∧
+    cmp primOps (samplePoint negZero) (samplePoint posZero) = -1 ∧
+    cmp primOps (samplePoint nan) (samplePoint nan) = 0 := by with_unfolding_all decide
 
 /-! ## 4. Cmp = 0, IsEqual and the visible data -/
 
 /-- IsEqual decides equality of the visible data (stored values of absent optional fields are not
-    part of the data). Leaves: pkg.*Equal exact on `P`. -/
-theorem isEqual_iff_same_data (a b : Value PrimVal)
-    (ha : a.All PrimVal.plainFloat) (hb : b.All PrimVal.plainFloat) :
+    part of the data), for all values - NaN and -0 leaves included. -/
+theorem isEqual_iff_same_data (a b : Value PrimVal) :
     isEqual primOps a b = true ↔ data a = data b :=
-  isEqual_iff_data primCopy.eq_iff a b ha hb
+  isEqual_iff_data (P := fun _ => True) (fun x y _ _ => primEqual_iff x y) a b (all_true a) (all_true b)
 
-example : isEqual primOps (samplePoint one) (samplePoint one) = true := by with_unfolding_all decide
+example : isEqual primOps (samplePoint nan) (samplePoint nan) = true ∧
+    isEqual primOps (samplePoint negZero) (samplePoint posZero) = false := by with_unfolding_all decide
 
 /-- Cmp = 0 only for values holding the same data (and then IsEqual agrees). -/
-theorem cmp_zero_same_data (a b : Value PrimVal)
-    (ha : a.All PrimVal.plainFloat) (hb : b.All PrimVal.plainFloat) (h : cmp primOps a b = 0) :
-    data a = data b ∧ isEqual primOps a b = true := by
-  have e := (cmp_prim_total_order_partial.eq_zero_iff a b ha hb).mp h
+theorem cmp_zero_same_data (a b : Value PrimVal) (h : cmp primOps a b = 0) :
+    a = b ∧ data a = data b ∧ isEqual primOps a b = true := by
+  have e := (cmp_prim_total_order.eq_zero_iff a b trivial trivial).mp h
   subst e
-  exact ⟨rfl, (isEqual_iff_same_data a a ha ha).mpr rfl⟩
+  exact ⟨rfl, rfl, (isEqual_iff_same_data a a).mpr rfl⟩
 
 example : cmp primOps (samplePoint two) (samplePoint two) = 0 := by with_unfolding_all decide
 
@@ -242,28 +197,62 @@ theorem isEqual_imp_cmp_zero_false :
   have := h staleA staleB (by with_unfolding_all decide)
   revert this; with_unfolding_all decide
 
-/-! ## 5. CopyFrom and Clone -/
+/-! ## 5. CopyFrom and Clone
 
-/-- CopyFrom: whatever dst held before (any shape, any content), after `dst.CopyFrom(src)` dst holds
-    exactly the data of src and IsEqual(dst, src) is true. -/
-theorem copyFrom_equal (d s : Value PrimVal)
-    (hd : d.All PrimVal.plainFloat) (hs : s.All PrimVal.plainFloat) :
-    data (copyFrom primOps d s) = data s ∧ isEqual primOps (copyFrom primOps d s) s = true := by
-  have e := data_copyFrom primCopy s d hs hd
-  exact ⟨e, isEqual_of_data (fun a ha => (primCopy.eq_iff a a ha ha).mpr rfl) s _ hs e⟩
+  Since /repo commit 59db810 the generated setters and copy loops are guarded by pkg.<T>Equal (bit
+  equality for floats since 05846e0), so copies are exact for every float bit pattern. Go's `!=` is
+  left in one modelled place, the primitive key/value branch of copy<Multimap> (no multimap of
+  go/otel has a float key or value). -/
 
-example : isEqual primOps (copyFrom primOps (samplePoint two) (samplePoint one)) (samplePoint one) = true ∧
-    cmp primOps (copyFrom primOps (samplePoint two) (samplePoint one)) (samplePoint one) = 0 := by
+/-- every record tree is equal to itself under IsEqual (NaN leaves included) -/
+theorem isEqual_refl (v : Value PrimVal) : isEqual primOps v v = true :=
+  (isEqual_iff_same_data v v).mpr rfl
+
+example : isEqual primOps (samplePoint nan) (samplePoint nan) = true := by with_unfolding_all decide
+
+/-- copyToNew (the copy into a fresh value that Clone and the decoders' dictionaries use): the copy
+    holds the same data and IsEqual(copy, source) - for ALL values, no float hypothesis. -/
+theorem copyNew_equal (s : Value PrimVal) :
+    data (copyNew primOps s) = data s ∧ isEqual primOps (copyNew primOps s) s = true := by
+  have e := data_copyNew primEq s
+  exact ⟨e, (isEqual_iff_same_data _ _).mpr e⟩
+
+example : isEqual primOps (copyNew primOps (samplePoint negZero)) (samplePoint negZero) = true ∧
+    isEqual primOps (copyNew primOps (samplePoint nan)) (samplePoint nan) = true := by
   with_unfolding_all decide
 
-/-- copyToNew (the copy into a fresh value that Clone and the decoders' dictionaries use):
-    same data, IsEqual. -/
-theorem copyNew_equal (s : Value PrimVal) (hs : s.All PrimVal.plainFloat) :
-    data (copyNew primOps s) = data s ∧ isEqual primOps (copyNew primOps s) s = true := by
-  have e := data_copyNew primCopy s hs
-  exact ⟨e, isEqual_of_data (fun a ha => (primCopy.eq_iff a a ha ha).mpr rfl) s _ hs e⟩
+/-- CopyFrom: whatever dst held before (any shape, any content), after `dst.CopyFrom(src)` dst holds
+    exactly the data of src and IsEqual(dst, src) is true - provided no float that is DIRECTLY a
+    multimap key or value (in dst or src) is the negative zero. All other leaves are unrestricted
+    (NaN, -0 in struct fields, oneofs, arrays). -/
+theorem copyFrom_equal (d s : Value PrimVal)
+    (hd : d.MapPrims PrimVal.notNegZero) (hs : s.MapPrims PrimVal.notNegZero) :
+    data (copyFrom primOps d s) = data s ∧ isEqual primOps (copyFrom primOps d s) s = true := by
+  have e := data_copyFrom primEq primSameOk s d hs hd
+  exact ⟨e, (isEqual_iff_same_data _ _).mpr e⟩
 
-example : isEqual primOps (copyNew primOps (samplePoint two)) (samplePoint two) = true := by with_unfolding_all decide
+/-- non-vacuity: the Point-like sample (its multimap has a string key and a oneof value) meets the
+    hypothesis with a -0.0 and with a NaN in its float field, and is copied exactly over another value -/
+example : (samplePoint negZero).MapPrims PrimVal.notNegZero ∧ (samplePoint nan).MapPrims PrimVal.notNegZero := by
+  simp [samplePoint, Value.MapPrims, Fields.MapPrims, Values.MapPrims, Pairs.MapPrims, PrimVal.notNegZero]
+example : isEqual primOps (copyFrom primOps (samplePoint posZero) (samplePoint negZero)) (samplePoint negZero) = true ∧
+    cmp primOps (copyFrom primOps (samplePoint two) (samplePoint nan)) (samplePoint nan) = 0 := by
+  with_unfolding_all decide
+
+/-- a multimap with a float64 VALUE (not a oneof): +0.0 in the destination, -0.0 in the source -/
+def mapPos : Value PrimVal := .mmap (.cons (.leaf (.str [0x6b#8])) (.leaf (.f64 posZero)) .nil)
+def mapNeg : Value PrimVal := .mmap (.cons (.leaf (.str [0x6b#8])) (.leaf (.f64 negZero)) .nil)
+
+/-- Without that hypothesis the claim is false for the templates as written: copy<Multimap> still
+    guards primitive keys/values with Go's `!=` (multimap.go.tmpl, `if dst.elems[i].value !=
+    src.elems[i].value`), which is false for +0.0 against -0.0 - the value is not copied. (By
+    transcription of the template; unreachable in go/otel, whose multimaps have no float
+    keys/values, so not a finding of the harness.) -/
+theorem copyFrom_equal_false :
+    ¬ ∀ d s : Value PrimVal, isEqual primOps (copyFrom primOps d s) s = true := by
+  intro h
+  have := h mapPos mapNeg
+  revert this; with_unfolding_all decide
 
 /-- `Cmp(copy, source) = 0` is FALSE in general: a copy does not reproduce the values stored in
     absent optional fields, which Cmp<Struct> compares (finding cmp-stale-optional). -/
@@ -273,13 +262,14 @@ theorem cmp_copy_zero_false :
   have := h staleB staleA
   revert this; with_unfolding_all decide
 
-/-- For clean sources the fresh copy is identical to the source, so `Cmp(copy, source) = 0`. -/
-theorem cmp_copyNew_zero_partial (s : Value PrimVal) (hs : s.All PrimVal.plainFloat)
-    (cs : s.Clean primOps) : copyNew primOps s = s ∧ cmp primOps (copyNew primOps s) s = 0 := by
-  have e := copyNew_clean primCopy s hs cs
-  exact ⟨e, by rw [e]; exact cmp_prim_total_order_partial.refl s hs⟩
+/-- For clean sources (absent optional primitives hold their zero value) the fresh copy is
+    identical to the source, so `Cmp(copy, source) = 0` - for all float bit patterns. -/
+theorem cmp_copyNew_zero_partial (s : Value PrimVal) (cs : s.Clean primOps) :
+    copyNew primOps s = s ∧ cmp primOps (copyNew primOps s) s = 0 := by
+  have e := copyNew_clean primEq s cs
+  exact ⟨e, by rw [e]; exact cmp_prim_total_order.refl s trivial⟩
 
-example : (Value.struct (.cons .req (.leaf (.i64 1)) (.cons .absent (.leaf (.u64 0)) .nil))).Clean primOps := by
+example : (Value.struct (.cons .req (.leaf (.f64 negZero)) (.cons .absent (.leaf (.u64 0)) .nil))).Clean primOps := by
   simp [Value.Clean, Fields.Clean, primOps, primZero]
 
 /-- a histogram-like struct with an optional field that is PRESENT -/
@@ -295,18 +285,19 @@ theorem clone_equal_false :
   revert this; with_unfolding_all decide
 
 /-- Clone of a value without optional fields at its top level (`TopReq`; nested optionals are fine):
-    same data, IsEqual; and for clean values identical, so Cmp = 0. -/
-theorem clone_equal_partial (v : Value PrimVal) (hv : v.All PrimVal.plainFloat) (hq : v.TopReq) :
+    same data, IsEqual - for all float bit patterns; and for clean values identical, so Cmp = 0. -/
+theorem clone_equal_partial (v : Value PrimVal) (hq : v.TopReq) :
     data (clone primOps v) = data v ∧ isEqual primOps (clone primOps v) v = true ∧
     (v.Clean primOps → cmp primOps (clone primOps v) v = 0) := by
-  have e := data_clone primCopy v hv hq
-  refine ⟨e, isEqual_of_data (fun a ha => (primCopy.eq_iff a a ha ha).mpr rfl) v _ hv e, ?_⟩
+  have e := data_clone primEq v hq
+  refine ⟨e, (isEqual_iff_same_data _ _).mpr e, ?_⟩
   intro cv
-  rw [clone_clean primCopy v hv hq cv]
-  exact cmp_prim_total_order_partial.refl v hv
+  rw [clone_clean primEq v hq cv]
+  exact cmp_prim_total_order.refl v trivial
 
-/-- non-vacuity: a Point-like value (its optional fields are nested inside the oneof) -/
-example : (samplePoint two).TopReq ∧ isEqual primOps (clone primOps (samplePoint two)) (samplePoint two) = true := by
+/-- non-vacuity: a Point-like value (its optional fields are nested inside the oneof) holding -0.0 -/
+example : (samplePoint negZero).TopReq ∧
+    isEqual primOps (clone primOps (samplePoint negZero)) (samplePoint negZero) = true := by
   constructor
   · simp [samplePoint, Value.TopReq, Fields.AllReq]
   · with_unfolding_all decide
